@@ -17,6 +17,7 @@ import pyval
 REQUIRED_THEOREMS = [
     "C06_error_raises", "C06_error_class", "C06_coded", "C06_message", "C06_range_int", "C06_range_nonnumeric",
     "C06_raw", "C06_single_entry", "C06_result_unchanged", "C06_multicall", "C06_appdata",
+    "C06_batch_single_error", "C06_batch_array",
     "C06_gen_protoRange", "C06_gen_errorClasses",
 ]
 
@@ -233,6 +234,24 @@ def run(ctx):
                 ctx.violate({"reply": reply, "via": "MultiCall", "position": pos}, m, key="multicall:" + m[:60])
             lines.append("mcget %d %s" % (pos, pyval.enc(batch)))
             impl_out.append(impl.canon_outcome(k3, v3))
+        # 4. the same object as the server's answer to a WHOLE batch (e.g. its parse error)
+        if isinstance(reply, dict):
+            tr = impl.LoopTransport(lambda body, t=text: t)
+            proxy = J.ServerProxy("http://localhost/", transport=tr, config=cfg)
+            mc = J.MultiCall(proxy, config=cfg)
+            mc.m()
+            mc.n()
+            k4, v4 = impl.outcome(lambda: list(mc()))
+            if in_domain(reply) and "error" in reply and truthy(reply["error"]):
+                m = monitor(reply, k4, v4, "MultiCall (single object for the batch)")
+                if m:
+                    ctx.violate({"reply": reply, "via": "MultiCall-batch-object"}, m, key="batchobject:" + m[:50])
+            lines.append("mcrun " + enc)
+            if k4 == "ok":
+                # the results are the objects' "result" members; the model returns the reply objects
+                impl_out.append("ok-len %d" % len(v4))
+            else:
+                impl_out.append(impl.canon_outcome(k4, v4))
         err = reply.get("error") if isinstance(reply, dict) else None
         code = err.get("code") if isinstance(err, dict) else None
         cclass = ("none" if not isinstance(err, dict) or "code" not in err else
@@ -248,6 +267,12 @@ def run(ctx):
             unmodelled += 1
             continue
         cm = impl.canon_model_line(mo)
+        if ln.startswith("mcrun ") and cm.startswith("ok ") and io.startswith("ok-len "):
+            cm = "ok-len %d" % len(pyval.parse(cm[3:])[1])
+        elif ln.startswith("mcrun ") and io.startswith("err") and cm.startswith("ok "):
+            # iterating the single kept object raised in the result access (no "result" member etc.): the batch call
+            # itself succeeded in the model; compare through the per-object component instead
+            continue
         if cm != io:
             ctx.disagree(ln, io, cm, component=ln.split(" ")[0])
     ctx.traces_validated += len(lines) - unmodelled
